@@ -77,7 +77,7 @@ def extra(ctx, state):
         "cases_per_k": ks,
         "cache_order_cases": sum(1 for c in cases if c.startswith("c06-cache")),
         "k0_eoi_deviation_cases": len(dev),
-        "size_caps": "k <= 3: <= 5 non-terminals, <= 3 terminals, rhs <= 4; k = 4, 5 (thorough only, every 4th grammar): "
+        "size_caps": "k <= 3: <= 5 non-terminals, <= 3 terminals, rhs <= 4; k = 4..6 (thorough only, every 4th grammar): "
                      "<= 4 non-terminals, <= 2 terminals, rhs <= 3",
     }
 
@@ -92,7 +92,7 @@ SPEC = {
     "level": "proof",
     "rule": "10 hand-picked boundary grammars + random productive, reachable, (hidden-)left-recursion-free grammars (own closure "
             "computations AND parol's own checks must agree), biased to nullable non-terminals and shared prefixes; per grammar: "
-            "first_k and follow_k for every k in 0..3 (0..5 for every 4th grammar in the thorough tier) and two cache request "
+            "first_k and follow_k for every k in 0..3 (0..6 for every 4th grammar in the thorough tier) and two cache request "
             "sequences (ascending, descending, random, repeated; FirstCache::get, FollowCache::get, direct follow_k on the shared "
             "caches); non-trivial = grammar with >= 2 productions and k > 0; distinct = distinct request lines",
     "assumptions": [
